@@ -6,7 +6,7 @@
    asynchronous `go AddPeer` is awaited; see DESIGN.md C11).
    "Same IP" for the peer store = same raw IP bytes (DESIGN.md Appendix B): the 4-byte and the
    v4-mapped form of one address are two keys. *)
-From Dht Require Import Base Int160 Msg Server ServerDefs ServerC10 ServerC11 Sha1.
+From Dht Require Import Base Int160 Msg Server ServerDefs ServerC10 ServerC11 ServerHook Sha1.
 From DhtGen Require Import Params.
 From Coq Require Import Permutation.
 Local Open Scope Z_scope.
@@ -205,6 +205,12 @@ Section C11.
     In (ESend d rm k) out ->
     exists r tok, m_r rm = Some r /\ r_token r = Some tok /\ create_token src (s_now s) = Some tok.
   Proof. exact (ServerC11.C11_token Store w_put w_get sha1 id_secure cfg s src size m a ch s' out d rm k). Qed.
+  (* the application's OnAnnouncePeer hook is not part of the node: the announce step stores the peer
+     whether or not a hook is configured ([announce_of] does not read c_announce_cb, see
+     C11_accepted_announce_spec / C11_step_peers) and however long the hook runs.  The harness event
+     `hookrel` (the blocked hook calls return) is replayed on the model as [EAdvance 0]: the identity. *)
+  Theorem C11_hook_release_is_noop s ch : step s (EAdvance 0) ch = SR Store s [].
+  Proof. exact (step_advance_zero_noop Store w_put w_get sha1 id_secure cfg s ch). Qed.
 End C11.
 
 (* ================= non-vacuity: concrete histories, real SHA-1 ================= *)
@@ -315,6 +321,7 @@ Proof. repeat split. Qed.
 Print Assumptions C11_add_peer_lookup.
 Print Assumptions C11_accepted_announce_spec.
 Print Assumptions C11_step_peers.
+Print Assumptions C11_hook_release_is_noop.
 Print Assumptions C11_store_changes_only_by_accepted_announce.
 Print Assumptions C11_store_is_fold_of_announces.
 Print Assumptions C11_announced_spec.
